@@ -197,9 +197,23 @@ def run_lattice(h, tier):
 # ----------------------------------------------------------------------------------------------
 
 
+def _fresh_world(config, path):
+    """the same state reached on fresh objects by re-executing the history in this process (live objects rarely
+    copy faithfully: module-level caches and memory shared between arrays do not survive pickling)"""
+    from .harness.common import clear_caches
+
+    clear_caches()
+    w = _H.init(config)
+    for e in path:
+        _H.step(w, e, config)
+    return w
+
+
 def _expand_worker(task):
-    """task = (ci, config, do_core, [(path, pickled_world), ...])"""
-    ci, config, do_core, items = task
+    """task = (ci, config, do_core, fresh, [(path, pickled_world), ...])"""
+    from .harness.common import clear_caches
+
+    ci, config, do_core, fresh, items = task
     st = Stats()
     succ = {}
     try:
@@ -212,7 +226,14 @@ def _expand_worker(task):
                 if jdump(e) not in coreset:
                     evs.append((e, False))
             for ev, is_core in evs:
-                w = pickle.loads(blob)
+                if fresh:
+                    w = _fresh_world(config, path)
+                    st.extra["fresh_replays"] += 1
+                    if _H.canon(w, config) != _H.canon(w0, config):
+                        st.violations.append(("HARNESS-ERROR", {"config": config, "events": path}, "state reached by replaying the history on fresh objects differs from the stored state (hidden state or nondeterminism)"))
+                else:
+                    clear_caches()
+                    w = pickle.loads(blob)
                 res = _H.step(w, ev, config)
                 st.transitions += 1
                 case = {"config": config, "events": path + [ev]}
@@ -229,6 +250,30 @@ def _expand_worker(task):
         st.extra["__worker_error__"] += 1
         st.violations.append(("HARNESS-ERROR", {"config": config}, traceback.format_exc()))
     return ci, st, succ
+
+
+AUDIT_PAIRS = 240
+FRESH_MAX_LEVEL = 2
+
+
+def _audit_worker(item):
+    """expand two different histories that share a canonical state with every event; observations must agree"""
+    ci, config, path_a, blob_a, path_b, blob_b = item
+    bad = []
+    n = 0
+    try:
+        evs = _H.full_events(pickle.loads(blob_a), config)
+        for ev in evs:
+            wa, wb = pickle.loads(blob_a), pickle.loads(blob_b)
+            ra, rb = _H.step(wa, ev, config), _H.step(wb, ev, config)
+            n += 1
+            oa = (ra.get("outcome"), sorted(c for c, _ in ra.get("violations", ())), digest(_H.canon(wa, config)).hex())
+            ob = (rb.get("outcome"), sorted(c for c, _ in rb.get("violations", ())), digest(_H.canon(wb, config)).hex())
+            if oa != ob:
+                bad.append({"config": config, "history_a": path_a, "history_b": path_b, "event": ev, "obs_a": oa, "obs_b": ob})
+    except BaseException:
+        bad.append({"error": traceback.format_exc()})
+    return 1, n, bad
 
 
 def explore(h, tier):
@@ -248,6 +293,10 @@ def explore(h, tier):
         frontier.append((ci, [], pickle.dumps(w, protocol=pickle.HIGHEST_PROTOCOL)))
     capped = None
     levels = []
+    audit = tier == "thorough" or bool(os.environ.get("VERIF_AUDIT"))
+    fresh = tier == "thorough" or bool(os.environ.get("VERIF_FRESH")) or bool(getattr(h, "fresh_quick", False))
+    merged = []
+    audit_result = {"pairs": 0, "expansions": 0, "mismatches": 0}
     pool = mp.get_context("fork").Pool(NPROC) if NPROC > 1 else None
     try:
         for level in range(depth + 1):
@@ -259,9 +308,10 @@ def explore(h, tier):
             tasks = []
             for ci, items in by_cfg.items():
                 for i in range(0, len(items), CH):
-                    tasks.append((ci, configs[ci], do_core, items[i : i + CH]))
+                    tasks.append((ci, configs[ci], do_core, fresh and level <= FRESH_MAX_LEVEL, items[i : i + CH]))
             it = pool.imap_unordered(_expand_worker, tasks, chunksize=1) if pool else map(_expand_worker, tasks)
             newfrontier = []
+            this_level = {}
             done = 0
             for ci, st, succ in it:
                 total.merge(st)
@@ -270,7 +320,12 @@ def explore(h, tier):
                     key = digest(jdump(ci).encode() + c)
                     if key not in seen:
                         seen.add(key)
+                        this_level[key] = len(newfrontier)
                         newfrontier.append((ci, path, blob))
+                    elif audit and level < 2 and key in this_level and len(merged) < AUDIT_PAIRS:
+                        rep = newfrontier[this_level[key]]
+                        if jdump(rep[1]) != jdump(path):
+                            merged.append((ci, configs[ci], rep[1], rep[2], path, blob))
                 if BUDGET_S and time.time() - t0 > BUDGET_S and done < len(tasks):
                     capped = f"VERIF_BUDGET_S={BUDGET_S} hit at level {level} after {done}/{len(tasks)} tasks"
                     break
@@ -285,11 +340,22 @@ def explore(h, tier):
             frontier = newfrontier
             if not do_core or not frontier:
                 break
+        # canonicalisation audit: histories that were merged into one canonical state must have the same futures
+        if audit and merged and not capped:
+            it = pool.imap_unordered(_audit_worker, merged, chunksize=1) if pool else map(_audit_worker, merged)
+            for npairs, nexp, bad in it:
+                audit_result["pairs"] += npairs
+                audit_result["expansions"] += nexp
+                audit_result["mismatches"] += len(bad)
+                for b in bad[:2]:
+                    total.violations.append(("HARNESS-ERROR", {"audit": b}, "canonicalisation audit: merged states have different futures: " + jdump(b)[:1500]))
     finally:
         if pool:
             pool.close()
             pool.join()
     cov = {
+        "canonicalisation_audit": audit_result if audit else "not run in this tier",
+        "fresh_object_replay": f"every transition up to level {FRESH_MAX_LEVEL} re-executed from a fresh world" if fresh else "not in this tier (states restored from pickles, caches cleared before every transition)",
         "states": len(seen),
         "transitions": total.transitions,
         "traces_validated_against_impl": total.transitions,
